@@ -13,10 +13,10 @@ from ..devsim import SimDevice
 
 ID = "C15"
 LEVEL = "exploration"
-SHARDS = {"quick": 4, "thorough": 16}
+SHARDS = {"quick": 8, "thorough": 16}
 RULE = ("ordered lists of 0..12 well-formed capability records (id in every CapabilityId member or unknown, size 0..10 with exactly "
         "that many data bytes, first value biased to the values the readers distinguish; incl. zero-size records, known ids with "
-        "size >= 2, TEMPERATURES with size 1..10), trailer in {none, [flag,x], [x]}, split point k. Oracle (metamorphic): "
+        "size >= 2, TEMPERATURES with size 1..10; plus lists in which the same id occurs two or three times with different values), trailer in {none, [flag,x], [x]}, split point k. Oracle (metamorphic): "
         "(1) raw_capabilities and every public property of CapabilitiesResponse(L) equal those of the in-order merge of the "
         "single-record responses; (2) through get_capabilities(): a client of a device serving L in one page and a client of a "
         "device serving L[:k] with the more-flag and L[k:] as additional page expose equal capability attributes, the second "
@@ -171,3 +171,12 @@ def run(ctx) -> None:
         "trailer2": st.sampled_from(["", "0000", "00"]),
         "k": st.integers(0, 12), "x": st.integers(0, 255), "paging": st.booleans()})
     ctx.hyp("lists", cases, lambda c: _run_one(ctx, c), ctx.n(3000, 480000))
+    # the same capability id repeated with different values (a later record overrides an earlier one, also across the split)
+    dup_ids = [0x0048, 0x0216, 0x0214, 0x0212, 0x0225, 0x0210, 0x0215, 0x021F, 0x0043, 0x0042, 0x0018, 0x0219, 0x00E3, 0x0009]
+    one = st.sampled_from(dup_ids).flatmap(lambda i: st.lists(
+        (st.binary(min_size=6, max_size=7) if i == 0x0225 else st.one_of(st.integers(0, 13), st.integers(0, 255)).map(lambda v: bytes([v]))).map(lambda d, i=i: [i, d.hex()]),
+        min_size=2, max_size=3))
+    dup_lists = st.lists(one, min_size=1, max_size=3).flatmap(lambda groups: st.permutations([r for g in groups for r in g]))
+    dup_cases = st.fixed_dictionaries({"records": dup_lists.map(list), "trailer": st.sampled_from(["", "0000", "00"]), "trailer2": st.sampled_from(["", "00"]),
+                                       "k": st.integers(0, 9), "x": st.integers(0, 255), "paging": st.just(True)})
+    ctx.hyp("repeated ids", dup_cases, lambda c: _run_one(ctx, c), ctx.n(1600, 160000))
